@@ -34,7 +34,7 @@ func ruleArithGuard(c *Ctx, rule string, fns []*ssa.Function) {
 						return // constant non-zero divisor: not an obligation
 					}
 				}
-				key := fmt.Sprintf("%s | %s %s by %s", fnName(fn), bo.Op, tstr(bo.X.Type()), describe(bo.Y))
+				key := fmt.Sprintf("%s | %s %s by %s", fnName(ownerFn(c.L, fn)), bo.Op, tstr(bo.X.Type()), describe(c.L.paramArg(bo.Y)))
 				r := rangeAt(bo.Y, bo.Block(), pb)
 				c.Check(rule, key, c.L.Pos(bo.Pos()), r.nonZero(),
 					"divisor proven non-zero by a dominating comparison",
@@ -49,7 +49,7 @@ func ruleArithGuard(c *Ctx, rule string, fns []*ssa.Function) {
 						return
 					}
 				}
-				key := fmt.Sprintf("%s | %s %s by %s", fnName(fn), bo.Op, tstr(bo.X.Type()), describe(bo.Y))
+				key := fmt.Sprintf("%s | %s %s by %s", fnName(ownerFn(c.L, fn)), bo.Op, tstr(bo.X.Type()), describe(c.L.paramArg(bo.Y)))
 				r := rangeAt(bo.Y, bo.Block(), pb)
 				c.Check(rule, key, c.L.Pos(bo.Pos()), r.nonNeg(),
 					"shift count proven non-negative by a dominating comparison",
@@ -592,7 +592,7 @@ func callersEstablish(c *Ctx, fn *ssa.Function, base, bound ssa.Value, pb int, s
 			idx = i
 		}
 	}
-	calls := c.L.StaticCallers(fn)
+	calls := c.L.RealCallers(fn)
 	if idx < 0 || len(calls) == 0 {
 		return false
 	}
@@ -700,7 +700,7 @@ func paramAlwaysNonNegConst(p *ssa.Parameter) bool {
 			idx = i
 		}
 	}
-	calls := gL.StaticCallers(fn)
+	calls := gL.RealCallers(fn)
 	if idx < 0 || len(calls) == 0 {
 		return false
 	}
@@ -714,4 +714,25 @@ func paramAlwaysNonNegConst(p *ssa.Parameter) bool {
 		}
 	}
 	return true
+}
+
+// ownerFn: for a helper with exactly one static call site that is neither used
+// as a value nor callable dynamically, the function it was split out of
+// (followed up to three levels): obligations keyed by the owner keep their key
+// when a function is split.
+func ownerFn(l *Loaded, fn *ssa.Function) *ssa.Function {
+	for i := 0; i < 3; i++ {
+		if fn.Parent() != nil || l.AddressTaken(fn) || l.mayBeInvoked(fn) {
+			return fn
+		}
+		cs := l.RealCallers(fn)
+		if len(cs) != 1 || cs[0].Parent() == fn {
+			return fn
+		}
+		fn = cs[0].Parent()
+		for fn.Parent() != nil {
+			fn = fn.Parent()
+		}
+	}
+	return fn
 }
